@@ -174,14 +174,25 @@ def run_prerequisite(ctx: Ctx, src_prop: str, allow: T.Iterable[str], alias: str
     """Run the rules `allow` of check `src_prop` inside ctx under rule id `alias`; `only` keeps the findings
     whose key it accepts."""
     mod = importlib.import_module(f"checks.{src_prop.lower()}")
+    root = ctx
+    while isinstance(root, SubCtx):
+        root = root._p
+    if src_prop in _PREREQ_ACTIVE or src_prop == getattr(root, "prop", None):
+        return 0          # mutual imports (C18 <-> C19): the property that is already being decided is not entered again
     sub = SubCtx(ctx, src_prop, allow, alias, only)
+    _PREREQ_ACTIVE.append(src_prop)
     try:
         mod.run(sub)
     except AnalysisError:
         if sub.kept == 0:
             raise
         # a later, unrelated rule of the source check gave up; the imported rules were already decided
+    finally:
+        _PREREQ_ACTIVE.pop()
     return sub.kept
+
+
+_PREREQ_ACTIVE: T.List[str] = []
 
 
 def load_known() -> T.List[T.Dict[str, T.Any]]:
